@@ -364,8 +364,9 @@ Lemma model_meets_spec_batch batch storms :
   Forall (Forall (Forall api)) batch ->
   spec_ok {| c_runs := map (fun phases => {| r_phases := phases;
                                              r_obs := Survived (run_phases st0 phases) |}) batch;
-             c_storms := map (fun kw => {| s_pipes := fst kw; s_workers := snd kw;
-                                           s_obs := StormSurvived false (reg st0) |}) storms |} = true.
+             c_storms := map (fun kwr => {| s_pipes := fst (fst kwr); s_workers := snd (fst kwr);
+                                            s_races := snd kwr;
+                                            s_obs := StormSurvived false 0 (reg st0) |}) storms |} = true.
 Proof.
   intro H. unfold spec_ok. cbn [c_runs c_storms]. apply andb_true_intro. split.
   - apply forallb_forall. intros r Hr.
@@ -408,4 +409,24 @@ Proof.
   - cbn [run step]. rewrite H. cbn [fst reg pend]. rewrite Hin. cbn [negb fst].
     rewrite Hn0. cbn [fst reg pend take]. rewrite N.eqb_refl. cbn [fst reg]. apply remove_insert. exact H.
   - cbn [results step]. rewrite H. cbn [fst snd reg]. rewrite Hin. reflexivity.
+Qed.
+
+(* racing rounds: of any number of Create n steps on a free name, taken in any
+   order (they are the same step), exactly the first succeeds; the others are
+   refused and change nothing; afterwards n is registered once *)
+Lemma create_refused s n : has n (reg s) = true -> step s (Create n) = (s, RErr).
+Proof. intro H. cbn [step]. rewrite H. reflexivity. Qed.
+
+Lemma create_race_one_winner s n k :
+  has n (reg s) = false ->
+  results s (repeat (Create n) (S k)) = ROk :: repeat RErr k /\
+  reg (run s (repeat (Create n) (S k))) = insert n 1 (reg s).
+Proof.
+  intro H. cbn [repeat results run step]. rewrite H. cbn [fst snd].
+  set (s1 := {| reg := insert n 1 (reg s); pend := pend s |}).
+  assert (has n (reg s1) = true) as H1 by (cbn [s1 reg]; rewrite has_insert, N.eqb_refl; reflexivity).
+  assert (forall j, results s1 (repeat (Create n) j) = repeat RErr j /\ run s1 (repeat (Create n) j) = s1) as Hj.
+  { induction j as [|j [IH1 IH2]]; [split; reflexivity|].
+    cbn [repeat results run]. rewrite (create_refused _ _ H1). cbn [fst snd]. rewrite IH1, IH2. split; reflexivity. }
+  destruct (Hj k) as [E1 E2]. rewrite E1, E2. split; reflexivity.
 Qed.
